@@ -169,13 +169,20 @@ inductive Outcome
   | ok (ids : List (ID × Src)) (total : Nat) (nerr : Nat) (partialResp : Bool) (cold : Bool)
 deriving DecidableEq, Repr
 
+/-- `sr.Offset + sr.Size` is an `int` addition (both operands were checked non-negative): when the mathematical sum
+    reaches 2^63 the Go sum is negative, and `dst.IDs = ids[:min(len(ids), limit)]` in `MergeQPRs` panics
+    ("slice bounds out of range") - whatever the shards answered.  (Offsets / sizes are Go ints, i.e. below 2^63.) -/
+def limitWraps (offset size : Nat) : Bool := decide (9223372036854775808 ≤ offset + size)
+
 def finish (r : StoresRes) (cold : Bool) (offset size : Nat) (rev : Bool) : Outcome :=
   match r with
   | .err k => .err k
   | .panic => .panic
   | .data qprs p =>
-    let m := mergeQPRs rev (offset + size) qprs
-    .ok (paginate m.ids offset size) m.total m.nerr p cold
+    if limitWraps offset size then .panic
+    else
+      let m := mergeQPRs rev (offset + size) qprs
+      .ok (paginate m.ids offset size) m.total m.nerr p cold
 
 /-- `Search`: hot tier first; on ErrIngestorQueryWantsOldData the read stores (if any) are asked instead.
     `hot` / `cold` are the shard answers of the tier in arrival order (`cold = []` iff no read shards). -/
